@@ -63,7 +63,7 @@ Tables ==
          {<<Svc(root, rs)>> : root \in PathRoots, rs \in RouteSeqs(Routes1(PathTemplates, PathMethods), 2)}
     [] Mode = "roots" ->
          \* "/ra": a root that continues another one as a string but not as a path
-         LET roots == IF Tier = "quick" THEN {"/", "/r", "/r/a", "/ra", "/{w}", "/r/{w}", "/{w}/a", "/{w:[0-9]+}", "/{v:[a-z]+}"}
+         LET roots == IF Tier = "quick" THEN {"/", "/r", "/r/a", "/ra", "/r/", "/{w}", "/r/{w}", "/{w}/a", "/{w:[0-9]+}", "/{v:[a-z]+}"}
                       ELSE {"/", "/r", "/r/a", "/ra", "/{w}", "/r/{w}", "/{w}/a", "/{w:[0-9]+}", "/{v:[a-z]+}", "/r/{w:[0-9]+}", "/r/"}
              rts == {<<R0("GET", "")>>, <<R0("GET", "/a")>>, <<R0("GET", "/{x}")>>}
          IN {<<Svc(p[1], a), Svc(p[2], b)>> : p \in {x \in roots \X roots : x[1] # x[2]}, a \in rts, b \in rts}
